@@ -67,6 +67,9 @@ func TestMain(m *testing.M) {
 		if rp.Phase == "udp_collector_restart" {
 			ev.RunReplay(rp, runRestartRepeated)
 		}
+		if rp.Phase == "long_session" {
+			ev.RunReplay(rp, runLongRepeated)
+		}
 		if rp.Phase == "stamps" {
 			ev.RunReplay(rp, runStamp)
 		}
@@ -463,6 +466,21 @@ func TestC08(t *testing.T) {
 		rec.Case(ev.Hash([]any{"udp_collector_restart", outage}), true, "udp_collector_restart")
 		if f != nil {
 			rec.Violation("udp_collector_restart", outage, f.Msg)
+			t.Fatalf("%s", f.Msg)
+		}
+	}
+	nLong := 70000
+	if rec.Thorough() {
+		nLong = 140000
+	}
+	for _, c := range []Long{{Proto: "udp", N: nLong}, {Proto: "tcp", N: nLong, Start: 1<<32 - 66000}} {
+		if ev.Shard() > 1 {
+			break
+		}
+		f := runLongRepeated(c)
+		rec.Case(ev.Hash(c), true, "long_session_"+c.Proto)
+		if f != nil {
+			rec.Violation("long_session", c, f.Msg)
 			t.Fatalf("%s", f.Msg)
 		}
 	}
